@@ -2,7 +2,14 @@
 (* C14: histories.                                                            *)
 (*   ALG = "MC"    monte_carlo.update applied to a sequence of episodes; the  *)
 (*                 table entry of every visited pair is the running mean of   *)
-(*                 its observed discounted returns (ghost `rets`).            *)
+(*                 its observed discounted returns (ghost `rets`).  Episodes  *)
+(*                 are built step by step (MCStep, every (s, a, r)) or - long *)
+(*                 ones, hundreds of steps - by a periodic pattern (MCLong):  *)
+(*                 the returns-to-go cycle through a short sequence of dyadic *)
+(*                 values and the rewards are derived from them, so that the  *)
+(*                 exact returns stay small rationals however long the        *)
+(*                 episode and whatever the discount (gamma^t itself is far   *)
+(*                 below the float32 range there).                            *)
 (*   ALG = "MODEL" dynaq.counter_update + dynaq.model_update after every      *)
 (*                 observed transition; the learned model is the empirical    *)
 (*                 successor frequency / mean reward of the history (ghost    *)
@@ -20,6 +27,7 @@ CONSTANTS NS, NA,
           N0,       \* MC: visit count the tables start with (continuing prior training)
           SRC,      \* source states 0..SRC-1 are explored
           LAT,
+          LONGLENS, \* MC: lengths of the pattern episodes (MCLong); {} = none
           EMIT
 
 VARIABLES q, n, ep, done, rets,     \* MC: table, visit counts, running episode, episodes done, ghost returns
@@ -42,8 +50,9 @@ ZeroModel == [T |-> [s \in 1..NS |-> [a \in 1..NA |-> [x \in 1..NS |-> Zero]]],
 View == IF ALG = "MC" THEN [q |-> q, n |-> n, ep |-> ep, done |-> done]
         ELSE [count |-> cnt.count, rh |-> cnt.rh, T |-> model.T, R |-> model.R]
 
-Emit(op, args) ==
-  EMIT => PrintT(<<"EMIT", ToJson([pre |-> View, op |-> op, args |-> args, exp |-> <<>>, post |-> View'])>>)
+EmitX(op, args, exp) ==
+  EMIT => PrintT(<<"EMIT", ToJson([pre |-> View, op |-> op, args |-> args, exp |-> exp, post |-> View'])>>)
+Emit(op, args) == EmitX(op, args, <<>>)
 
 Init == /\ q = Q0
         /\ n = [s \in 1..NS |-> [a \in 1..NA |-> N0]]
@@ -59,19 +68,49 @@ MCStep(s, a, r) ==
   /\ UNCHANGED <<q, n, done, rets, cnt, model, hist>>
   /\ Emit("MCStep", <<s, a, r>>)
 
-RECURSIVE AddReturns(_, _, _)
-AddReturns(rs, e, k) ==   \* in the order the implementation visits them: backward
+(* a long episode by pattern: step t (1-based) visits the pair ps[t mod |ps|]   *)
+(* and has the return-to-go cs[t mod |cs|]; hence the reward of step t is      *)
+(* G_t - gamma G_(t+1) (G_(T+1) = 0)                                           *)
+PatVals  == IF LAT = 0 THEN {Q(-1, 1), Half, I(2)} ELSE {Q(-1, 1), Zero, Half, I(2)}
+PatPairs == Sources \X Actions
+PatLens  == IF LAT = 0 THEN {1, 2} ELSE {1, 2, 3}
+SeqsOver(S, lens) == UNION {[1..k -> S] : k \in lens}
+Cyc(seq, t) == seq[((t - 1) % Len(seq)) + 1]
+LongEpisodeOf(T, cs, ps) ==
+  [t \in 1..T |-> <<Cyc(ps, t)[1], Cyc(ps, t)[2],
+                    QSub(Cyc(cs, t), QMul(GAMMA, IF t = T THEN Zero ELSE Cyc(cs, t + 1)))>>]
+MCLong(T, cs, ps) ==
+  /\ ALG = "MC" /\ done < MAXEP /\ ep = <<>>
+  /\ ep' = LongEpisodeOf(T, cs, ps)
+  /\ UNCHANGED <<q, n, done, rets, cnt, model, hist>>
+  /\ EmitX("MCLong", ep', [T |-> T, returns |-> cs, pairs |-> ps])
+
+RECURSIVE AddReturns(_, _, _, _)
+AddReturns(rs, e, R, k) ==   \* in the order the implementation visits them: backward; R = Returns(e, GAMMA)
   IF k = 0 THEN rs
-  ELSE AddReturns([rs EXCEPT ![e[k][1] + 1][e[k][2] + 1] = Append(@, ReturnFrom(e, k, GAMMA))], e, k - 1)
+  ELSE AddReturns([rs EXCEPT ![e[k][1] + 1][e[k][2] + 1] = Append(@, R[k])], e, R, k - 1)
+
+(* facts about one episode the binding needs for its comparison: a bound on    *)
+(* the magnitude of the returns, and for which entries the arithmetic of the   *)
+(* update is rounding-free whatever the number of visits - the pair was never  *)
+(* visited before this episode and observes one and the same return at all its *)
+(* visits in it (the first visit moves the entry onto that return with step    *)
+(* size 1, the others add 0)                                                   *)
+EpisodeFacts(e, R) ==
+  [gmax  |-> QMaxSeq([k \in 1..Len(e) |-> QAbs(R[k])]),
+   exact |-> [s \in 1..NS |-> [a \in 1..NA |->
+               LET V == {k \in 1..Len(e) : e[k][1] = s - 1 /\ e[k][2] = a - 1}
+               IN  V # {} /\ n[s][a] = 0 /\ Cardinality({R[k] : k \in V}) = 1]]]
 
 MCEnd ==
   /\ ALG = "MC" /\ Len(ep) > 0
   /\ LET res == MCEpisode(q, n, ep, GAMMA)
      IN  q' = res[1] /\ n' = res[2]
-  /\ rets' = AddReturns(rets, ep, Len(ep))
-  /\ ep' = <<>> /\ done' = done + 1
-  /\ UNCHANGED <<cnt, model, hist>>
-  /\ Emit("MCEnd", <<GAMMA>>)
+  /\ LET R == Returns(ep, GAMMA)
+     IN  /\ rets' = AddReturns(rets, ep, R, Len(ep))
+         /\ ep' = <<>> /\ done' = done + 1
+         /\ UNCHANGED <<cnt, model, hist>>
+         /\ EmitX("MCEnd", <<GAMMA>>, EpisodeFacts(ep, R))
 
 (* Dyna-Q model learning *)
 Observe(s, a, r, s2) ==
@@ -83,6 +122,7 @@ Observe(s, a, r, s2) ==
   /\ Emit("Observe", <<s, a, r, s2>>)
 
 Next == \/ \E s \in Sources, a \in Actions, r \in Rewards : MCStep(s, a, r)
+        \/ \E T \in LONGLENS, cs \in SeqsOver(PatVals, PatLens), ps \in SeqsOver(PatPairs, PatLens) : MCLong(T, cs, ps)
         \/ MCEnd
         \/ \E s \in Sources, a \in Actions, r \in Rewards, s2 \in States : Observe(s, a, r, s2)
 Spec == Init /\ [][Next]_vars
@@ -142,9 +182,35 @@ MCEndOffByOne ==
   /\ ALG = "MC" /\ Len(ep) > 0
   /\ LET res == MCBackOffByOne(q, n, Zero, ep, Len(ep), GAMMA)
      IN  q' = res[1] /\ n' = res[2]
-  /\ rets' = AddReturns(rets, ep, Len(ep))
+  /\ rets' = AddReturns(rets, ep, Returns(ep, GAMMA), Len(ep))
   /\ ep' = <<>> /\ done' = done + 1
   /\ UNCHANGED <<cnt, model, hist>>
+
+(* "returns by discounted cumulative sum": G_t = (sum_(k >= t) gamma^k r_k) / gamma^t - undefined as soon as *)
+(* gamma^t = 0 (gamma = 0 beyond the first step; in float32 also when gamma^t underflows).  The model of      *)
+(* this deviation leaves the return at such steps at 0 (any value but the true one refutes MCMean).           *)
+RECURSIVE QPow(_, _)
+QPow(x, k) == IF k = 0 THEN One ELSE QMul(x, QPow(x, k - 1))
+RECURSIVE MCBackCumsum(_, _, _, _, _)
+MCBackCumsum(qq, nn, acc, e, k) ==
+  IF k = 0 THEN <<qq, nn>>
+  ELSE LET s   == e[k][1]
+           a   == e[k][2]
+           d   == QPow(GAMMA, k - 1)
+           ac2 == QAdd(acc, QMul(d, e[k][3]))
+           G   == IF d = Zero THEN Zero ELSE QDiv(ac2, d)
+           n2  == [nn EXCEPT ![s + 1][a + 1] = @ + 1]
+           q2  == Put(qq, s, a, QAdd(At(qq, s, a), QMul(QDiv(One, I(n2[s + 1][a + 1])), QSub(G, At(qq, s, a)))))
+       IN  MCBackCumsum(q2, n2, ac2, e, k - 1)
+MCEndCumsum ==
+  /\ ALG = "MC" /\ Len(ep) > 0
+  /\ LET res == MCBackCumsum(q, n, Zero, ep, Len(ep))
+     IN  q' = res[1] /\ n' = res[2]
+  /\ rets' = AddReturns(rets, ep, Returns(ep, GAMMA), Len(ep))
+  /\ ep' = <<>> /\ done' = done + 1
+  /\ UNCHANGED <<cnt, model, hist>>
+NextBadCumsum == \/ \E s \in Sources, a \in Actions, r \in Rewards : MCStep(s, a, r)
+                 \/ MCEndCumsum
 
 NextBad == \/ \E s \in Sources, a \in Actions, r \in Rewards : MCStep(s, a, r)
            \/ MCEndOffByOne
